@@ -42,7 +42,7 @@ package scheduler
 //@   requires graph_wf(g)
 //@   requires node.data.State.Status == NodeStatusNone
 //@   modifies node.data.State.Status, node.data.State.Error
-//@   ensures [C01 ready_iff_deps_ok] ready <==>
+//@   ensures [C01,C02 ready_iff_deps_ok] ready <==>
 //@        (forall j int :: 0 <= j && j < len(g.to[node.id]) ==> old(dep_ok(g.dict[g.to[node.id][j]])))
 //@   ensures [C01 ready_keeps_status] ready ==> node.data.State.Status == old(node.data.State.Status)
 //@   ensures [C02 label_justified] node.data.State.Status == old(node.data.State.Status) ||
@@ -54,7 +54,7 @@ package scheduler
 //@        (exists j int :: 0 <= j && j < len(g.to[node.id]) &&
 //@             (old(cancel_blocker(g.dict[g.to[node.id][j]])) || old(skip_blocker(g.dict[g.to[node.id][j]]))))
 //@        ==> node.data.State.Status != NodeStatusNone
-//@   loop 0 invariant [C01 ready_prefix] ready <==>
+//@   loop 0 invariant [C01,C02 ready_prefix] ready <==>
 //@        (forall j int :: 0 <= j && j <= idx ==> old(dep_ok(g.dict[g.to[node.id][j]])))
 //@   loop 0 invariant [C01 ready_unchanged] ready ==> node.data.State.Status == old(node.data.State.Status)
 //@   loop 0 invariant [C02 label_prefix] node.data.State.Status == old(node.data.State.Status) ||
@@ -179,12 +179,25 @@ package scheduler
 //@   trusted
 //@   modifies sc.handlers, heap(map(dag.HandlerType, *Node)), heap(alloc), ghost eff.env, ghost eff.fs
 
+// A handler node is run like a step: set up, executed once, torn down — and not at all in dry-run mode.
 //@ fn (*Scheduler).runHandlerNode(sc, ctx, node) (err)
-//@   props C04
-//@   trusted
-//@   modifies node.data.State, node.data.Step, ghost hruns, ghost hlog, ghost eff.exec, ghost eff.fs, ghost eff.env
+//@   props C03 C04
+//@   modifies node.data.State, node.data.Step.CmdWithArgs, node.data.Step.Stdout, node.data.Step.Stderr, node.data.Step.Dir,
+//@            node.data.Step.Command, node.data.Step.Args, node.logFile, node.logWriter, node.stdoutFile, node.stdoutWriter,
+//@            node.stderrFile, node.stderrWriter, node.scriptFile, node.cmd, node.cancelFunc, node.outputReader, node.outputWriter, node.done,
+//@            ghost nsetup, ghost nexec, ghost execfail, ghost dirty, ghost ntear, ghost eff.exec, ghost eff.fs, ghost eff.env, heap(alloc), ghost obs.run_calls, ghost obs.run_err, ghost outvar.stores, ghost outvar.key, ghost outvar.val, ghost env.key, ghost env.val, ghost obs.buf_string
+//@   records hruns = old(hruns) + 1
+//@   records hlog = upd(old(hlog), old(hruns), node)
 //@   ensures err == nil
-//@   ensures hruns == old(hruns) + 1 && hlog == upd(old(hlog), old(hruns), node)
+//@   ensures [C03 dry_handler_runs_nothing] sc.dry ==> (nexec == old(nexec) && nsetup == old(nsetup) && ntear == old(ntear) &&
+//@        eff.exec == old(eff.exec) && eff.fs == old(eff.fs) && eff.env == old(eff.env) && obs.run_calls == old(obs.run_calls))
+//@   ensures [C04 handler_outcome_is_command_outcome] !sc.dry && obs.run_calls == old(obs.run_calls) + 1 ==>
+//@        (node.data.State.Status == NodeStatusSuccess <==> obs.run_err == nil)
+//@   ensures [C04 handler_ends_finished_or_failed] node.data.State.Status == NodeStatusSuccess || node.data.State.Status == NodeStatusError
+//@   ensures [C04 handler_command_runs_at_most_once] nexec == old(nexec) || nexec == upd(old(nexec), node, old(nexec[node]) + 1)
+//@   ensures [C04 handler_runs_unless_setup_failed] !sc.dry ==> (nsetup == upd(old(nsetup), node, old(nsetup[node]) + 1) &&
+//@        (node.data.State.Status == NodeStatusSuccess ==> (nexec[node] == old(nexec[node]) + 1 && !execfail[node])))
+//@   ensures [C12 handler_torn_down] nexec[node] != old(nexec[node]) ==> !dirty[node]
 
 // ---------------------------------------------------------------------------------------------
 // Node resources and execution (ghost counters make "how often" and "in which order" expressible)
@@ -203,14 +216,33 @@ package scheduler
 //@            n.stderrWriter, n.scriptFile, ghost nsetup, ghost eff.env, ghost eff.fs
 //@   ensures nsetup == upd(old(nsetup), n, old(nsetup[n]) + 1)
 
-//@ fn (*Node).Execute(n, ctx) (err)
-//@   props C03 C11 C12
+// Execute: the step's outcome is the outcome of its command.  Whatever else Execute does (output capture, log
+// path export), the error it returns is the one the executor's Run returned; if no command was run it is an error.
+//@ ghost obs.run_calls int         // executor Run() calls so far
+//@ ghost obs.run_err error         // what the last Run() returned
+//@ fn (*Node).setupExec(n, ctx) (cmd, err)
+//@   props C02 C11 C12
 //@   trusted
-//@   modifies n.data.State.Error, n.data.Step.Command, n.data.Step.Args, n.cmd, n.cancelFunc, n.outputReader, n.outputWriter,
-//@            ghost nexec, ghost execfail, ghost dirty, ghost eff.exec, ghost eff.env, ghost eff.fs
-//@   ensures nexec == upd(old(nexec), n, old(nexec[n]) + 1)
-//@   ensures execfail == upd(old(execfail), n, err != nil)
-//@   ensures dirty == upd(old(dirty), n, true)
+//@   modifies n.data.Step.Command, n.data.Step.Args, n.cmd, n.cancelFunc, n.outputReader, n.outputWriter, heap(alloc), ghost eff.fs
+//@   ensures err == nil ==> cmd != nil
+
+//@ fn (*Node).Execute(n, ctx) (err)
+//@   props C02 C03 C11 C12
+//@   modifies n.data.State.Error, n.data.Step.Command, n.data.Step.Args, n.cmd, n.cancelFunc, n.outputReader, n.outputWriter, heap(alloc),
+//@            ghost obs.run_calls, ghost obs.run_err, ghost outvar.stores, ghost outvar.key, ghost outvar.val, ghost eff.exec, ghost eff.env, ghost eff.fs,
+//@            ghost env.key, ghost env.val, ghost obs.buf_string
+//@   records nexec = upd(old(nexec), n, old(nexec[n]) + 1)
+//@   records execfail = upd(old(execfail), n, err != nil)
+//@   records dirty = upd(old(dirty), n, true)
+//@   ensures [C02 step_outcome_is_command_outcome] obs.run_calls == old(obs.run_calls) + 1 ==> err == obs.run_err
+//@   ensures [C02 no_command_no_success] obs.run_calls == old(obs.run_calls) ==> err != nil
+//@   ensures [C03 command_runs_at_most_once_per_execution] obs.run_calls == old(obs.run_calls) || obs.run_calls == old(obs.run_calls) + 1
+//@   ensures [C11 capture_only_when_configured] outvar.stores != old(outvar.stores) ==> (outvar.stores == old(outvar.stores) + 1 && n.data.Step.Output != "")
+//@   ensures [C11 captured_under_its_name] outvar.stores != old(outvar.stores) ==> (isType(outvar.key, "string") && asType(outvar.key, "string") == n.data.Step.Output)
+//@   ensures [C11 stored_as_name_equals_trimmed_output] outvar.stores != old(outvar.stores) ==>
+//@        (isType(outvar.val, "string") && asType(outvar.val, "string") == n.data.Step.Output + "=" + trim_space(obs.buf_string))
+//@   ensures [C11 capture_is_exported_trimmed] outvar.stores != old(outvar.stores) ==>
+//@        (eff.env != old(eff.env) && env.key == n.data.Step.Output && env.val == trim_space(obs.buf_string))
 
 //@ fn (*Node).teardown(n) (err)
 //@   props C03 C12
@@ -230,9 +262,12 @@ package scheduler
 //@   ensures !sc.dry ==> nsetup == upd(old(nsetup), node, old(nsetup[node]) + 1)
 
 //@ fn (*Scheduler).execNode(sc, ctx, n) (err)
-//@   props C03 C12
-//@   modifies n.data.State.Error, n.data.Step.Command, n.data.Step.Args, n.cmd, n.cancelFunc, n.outputReader, n.outputWriter,
-//@            ghost nexec, ghost execfail, ghost dirty, ghost eff.exec, ghost eff.env, ghost eff.fs
+//@   props C02 C03 C12
+//@   modifies n.data.State.Error, n.data.Step.Command, n.data.Step.Args, n.cmd, n.cancelFunc, n.outputReader, n.outputWriter, heap(alloc),
+//@            ghost nexec, ghost execfail, ghost dirty, ghost eff.exec, ghost eff.env, ghost eff.fs, ghost obs.run_calls, ghost obs.run_err, ghost outvar.stores, ghost outvar.key, ghost outvar.val, ghost env.key, ghost env.val, ghost obs.buf_string
+//@   ensures [C02 step_outcome_is_command_outcome] !sc.dry && obs.run_calls == old(obs.run_calls) + 1 ==> err == obs.run_err
+//@   ensures [C02 no_command_no_success] !sc.dry && obs.run_calls == old(obs.run_calls) ==> err != nil
+//@   ensures [C03 dry_runs_no_command] sc.dry ==> obs.run_calls == old(obs.run_calls)
 //@   ensures [C03 dry_no_exec] sc.dry ==> err == nil && nexec == old(nexec) && eff.exec == old(eff.exec) && eff.fs == old(eff.fs) &&
 //@        eff.env == old(eff.env) && dirty == old(dirty) && execfail == old(execfail)
 //@   ensures !sc.dry ==> nexec == upd(old(nexec), n, old(nexec[n]) + 1) && execfail == upd(old(execfail), n, err != nil) &&
@@ -322,7 +357,13 @@ package scheduler
 //@   props C01 C02 C03 C04 C05 C11 C15
 //@   requires nodes_wf(g) && graph_wf(g)
 //@   requires forall i int :: 0 <= i && i < len(g.nodes) ==> has(g.dict, g.nodes[i].id)
-//@   modifies *
+//@   modifies sc.handlers, sc.lastError, g.startedAt, g.finishedAt, heap(Node), heap(alloc), heap(map(dag.HandlerType, *Node)),
+//@            heap(elems(string)), heap(elems(dag.Condition)),
+//@            ghost launch, ghost hruns, ghost hlog, ghost nsetup, ghost nexec, ghost execfail, ghost dirty, ghost ntear,
+//@            ghost eff.exec, ghost eff.env, ghost eff.fs, ghost eff.condfail, ghost eff.waited,
+//@            ghost obs.run_calls, ghost obs.run_err, ghost outvar.stores, ghost outvar.key, ghost outvar.val, ghost env.key, ghost env.val, ghost obs.buf_string
+//@   records eff.sched = old(eff.sched) + 1
+//@   ensures [C03 scheduling_keeps_the_graph] nodes_wf(g) && graph_wf(g)
 //@   expect calls go (*Scheduler).Schedule$1 >= 1
 //@   expect calls isReady >= 1
 //@   assert before go [C01 deps_ok_at_launch]
@@ -354,3 +395,183 @@ package scheduler
 //@        idx == -1 ==> ((len(handlers) == 2 ==> handlers[0] == handler_for(outcome(sc, g))) &&
 //@                       (len(handlers) == 1 ==> (outcome(sc, g) == StatusNone || outcome(sc, g) == StatusRunning)))
 //@   loop 2 invariant [C04 handlers_run_in_order] hruns <= old(hruns) + idx + 1
+
+// ---------------------------------------------------------------------------------------------
+// Graph construction (C14, C01): names resolve exactly, edges are recorded in both directions, and a graph
+// is admitted iff every dependency resolves and hasCycle says no.
+
+//@ pred dict_wf(g *ExecutionGraph) = forall k int :: has(g.dict, k) ==> g.dict[k] != nil
+//@ pred name_absent(g *ExecutionGraph, name string) = forall k int :: has(g.dict, k) ==> g.dict[k].data.Step.Name != name
+
+//@ fn (*ExecutionGraph).findStep(g, name) (n, err)
+//@   props C14 C01
+//@   safety
+//@   requires dict_wf(g)
+//@   ensures [C14 found_is_a_node_with_that_name] err == nil ==>
+//@        (n != nil && n.data.Step.Name == name && (exists k int :: has(g.dict, k) && g.dict[k] == n))
+//@   ensures [C14 not_found_iff_no_such_step] err != nil <==> name_absent(g, name)
+//@   ensures [C14 not_found_returns_nil] err != nil ==> n == nil
+//@   loop 0 invariant forall k int :: visited(0, k) ==> (has(g.dict, k) && g.dict[k].data.Step.Name != name)
+
+//@ fn (*ExecutionGraph).addEdge(g, from, to)
+//@   props C14 C01
+//@   safety
+//@   requires g.from != nil && g.to != nil && g.from != g.to
+//@   modifies contents(g.from), contents(g.to), heap(alloc)
+//@   ensures [C14 edge_recorded_backward] len(g.to[to.id]) == old(len(g.to[to.id])) + 1 && g.to[to.id][old(len(g.to[to.id]))] == from.id
+//@   ensures [C14 edge_recorded_forward] len(g.from[from.id]) == old(len(g.from[from.id])) + 1 && g.from[from.id][old(len(g.from[from.id]))] == to.id
+//@   ensures [C14 earlier_edges_kept] forall j int :: 0 <= j && j < old(len(g.to[to.id])) ==> g.to[to.id][j] == old(g.to[to.id][j])
+//@   ensures [C14 earlier_edges_kept_fwd] forall j int :: 0 <= j && j < old(len(g.from[from.id])) ==> g.from[from.id][j] == old(g.from[from.id][j])
+//@   ensures [C14 other_nodes_untouched] forall k int :: k != to.id ==> (has(g.to, k) == old(has(g.to, k)) && g.to[k] == old(g.to[k]))
+//@   ensures [C14 other_nodes_untouched_fwd] forall k int :: k != from.id ==> (has(g.from, k) == old(has(g.from, k)) && g.from[k] == old(g.from[k]))
+//@   ensures [C14 other_lists_unchanged] forall k int, j int :: k != to.id && 0 <= j && j < len(g.to[k]) ==> g.to[k][j] == old(g.to[k][j])
+//@   ensures [C14 other_lists_unchanged_fwd] forall k int, j int :: k != from.id && 0 <= j && j < len(g.from[k]) ==> g.from[k][j] == old(g.from[k][j])
+
+// hasCycle: the functional contract (answer == "the dependency relation has a cycle") is decided by a bounded
+// stand-in that executes the real function (DESIGN §2.12); callers see its answer through a ghost observation.
+//@ ghost obs.cycle bool
+//@ ghost obs.cycle_calls int
+//@ fn (*ExecutionGraph).hasCycle(g) (r)
+//@   props C14
+//@   trusted
+//@   modifies ghost obs.cycle, ghost obs.cycle_calls
+//@   ensures obs.cycle == r && obs.cycle_calls == old(obs.cycle_calls) + 1
+
+//@ pred ids_wf(g *ExecutionGraph) = forall k int :: has(g.dict, k) ==> g.dict[k].id == k
+//@ pred edge_present(g *ExecutionGraph, i int, j int) = exists m int :: 0 <= m && m < len(g.to[g.nodes[i].id]) &&
+//@      has(g.dict, g.to[g.nodes[i].id][m]) && g.dict[g.to[g.nodes[i].id][m]].data.Step.Name == g.nodes[i].data.Step.Depends[j]
+//@ pred deps_resolve(g *ExecutionGraph) = forall i int, j int :: 0 <= i && i < len(g.nodes) && 0 <= j && j < len(g.nodes[i].data.Step.Depends) ==>
+//@      !name_absent(g, g.nodes[i].data.Step.Depends[j])
+
+//@ fn (*ExecutionGraph).setup(g) (err)
+//@   props C14 C01
+//@   safety
+//@   requires dict_wf(g) && ids_wf(g) && nodes_wf(g) && g.from != nil && g.to != nil && g.from != g.to
+//@   requires forall k int, j int :: 0 <= j && j < len(g.to[k]) ==> has(g.dict, g.to[k][j])
+//@   modifies contents(g.from), contents(g.to), heap(alloc), ghost obs.cycle, ghost obs.cycle_calls
+//@   expect calls (*ExecutionGraph).hasCycle >= 1
+//@   assert before (*ExecutionGraph).hasCycle [C14 cycle_test_sees_every_edge]
+//@        forall i int, j int :: 0 <= i && i < len(g.nodes) && 0 <= j && j < len(g.nodes[i].data.Step.Depends) ==> edge_present(g, i, j)
+//@   ensures [C14 dangling_dependency_is_refused] !old(deps_resolve(g)) ==> err != nil
+//@   ensures [C14 accepted_only_if_acyclic] err == nil ==> (obs.cycle_calls == old(obs.cycle_calls) + 1 && !obs.cycle)
+//@   ensures [C14 resolvable_acyclic_is_accepted] old(deps_resolve(g)) ==> (obs.cycle_calls == old(obs.cycle_calls) + 1 && (err != nil <==> obs.cycle))
+//@   ensures [C01 every_dependency_is_an_edge] err == nil ==>
+//@        (forall i int, j int :: 0 <= i && i < len(g.nodes) && 0 <= j && j < len(g.nodes[i].data.Step.Depends) ==> edge_present(g, i, j))
+//@   ensures [C01 edges_point_to_nodes] forall k int, j int :: 0 <= j && j < len(g.to[k]) ==> has(g.dict, g.to[k][j])
+//@   loop 0 invariant [resolved_so_far] forall i int, j int :: 0 <= i && i <= idx && 0 <= j && j < len(g.nodes[i].data.Step.Depends) ==>
+//@        (edge_present(g, i, j) && !old(name_absent(g, g.nodes[i].data.Step.Depends[j])))
+//@   loop 0 invariant [edges_to_nodes] forall k int, j int :: 0 <= j && j < len(g.to[k]) ==> has(g.dict, g.to[k][j])
+//@   loop 0 invariant obs.cycle_calls == old(obs.cycle_calls)
+//@   loop 1 invariant [resolved_so_far_outer] forall i int, j int :: 0 <= i && i <= idx0 && 0 <= j && j < len(g.nodes[i].data.Step.Depends) ==>
+//@        (edge_present(g, i, j) && !old(name_absent(g, g.nodes[i].data.Step.Depends[j])))
+//@   loop 1 invariant [resolved_so_far_inner] forall j int :: 0 <= j && j <= idx ==>
+//@        (edge_present(g, idx0 + 1, j) && !old(name_absent(g, g.nodes[idx0 + 1].data.Step.Depends[j])))
+//@   loop 1 invariant [edges_to_nodes_inner] forall k int, j int :: 0 <= j && j < len(g.to[k]) ==> has(g.dict, g.to[k][j])
+//@   loop 1 invariant obs.cycle_calls == old(obs.cycle_calls)
+
+// Node identities come from a process-wide counter: every id handed out is positive and below the counter.
+//@ fn getNextNodeID() (v)
+//@   props C14
+//@   modifies nextNodeID
+//@   ensures v == old(nextNodeID) && nextNodeID == old(nextNodeID) + 1
+
+//@ fn (*Node).init(n)
+//@   props C14 C01
+//@   modifies n.id, n.data.Step.Variables, n.data.Step.Preconditions, nextNodeID, heap(alloc)
+//@   ensures old(n.id) != 0 ==> (n.id == old(n.id) && nextNodeID == old(nextNodeID))
+//@   ensures old(n.id) == 0 ==> (n.id == old(nextNodeID) && nextNodeID == old(nextNodeID) + 1)
+
+//@ pred steps_absent(steps []dag.Step, name string) = forall k int :: 0 <= k && k < len(steps) ==> steps[k].Name != name
+
+//@ fn NewExecutionGraph(lg, steps) (g, err)
+//@   props C14 C01
+//@   requires nextNodeID > 0
+//@   modifies heap(alloc), nextNodeID, ghost obs.cycle, ghost obs.cycle_calls
+//@   ensures [C14 refused_graph_is_nil] err != nil ==> g == nil
+//@   ensures [C14 dangling_dependency_is_refused]
+//@        (exists i int, j int :: 0 <= i && i < len(steps) && 0 <= j && j < len(steps[i].Depends) && old(steps_absent(steps, steps[i].Depends[j]))) ==> err != nil
+//@   ensures [C14 accepted_only_if_acyclic] err == nil ==> (obs.cycle_calls == old(obs.cycle_calls) + 1 && !obs.cycle)
+//@   ensures [C14 resolvable_acyclic_is_accepted]
+//@        (forall i int, j int :: 0 <= i && i < len(steps) && 0 <= j && j < len(steps[i].Depends) ==> !old(steps_absent(steps, steps[i].Depends[j])))
+//@        ==> (obs.cycle_calls == old(obs.cycle_calls) + 1 && (err != nil <==> obs.cycle))
+//@   ensures [C01 graph_is_well_formed] err == nil ==> (g != nil && nodes_wf(g) && graph_wf(g) && dict_wf(g) && ids_wf(g) && len(g.nodes) == len(steps))
+//@   ensures [C01 nodes_are_the_steps_not_started] err == nil ==> (forall i int :: 0 <= i && i < len(steps) ==>
+//@        (g.nodes[i].data.Step.Name == old(steps[i].Name) && g.nodes[i].data.Step.Depends == old(steps[i].Depends) &&
+//@         g.nodes[i].data.State.Status == NodeStatusNone && has(g.dict, g.nodes[i].id) && g.dict[g.nodes[i].id] == g.nodes[i]))
+//@   loop 0 invariant graph != nil && graph.dict != nil && graph.from != nil && graph.to != nil && graph.from != graph.to
+//@   loop 0 invariant nextNodeID > 0 && obs.cycle_calls == old(obs.cycle_calls)
+//@   loop 0 invariant len(graph.nodes) == idx + 1 && nodes_wf(graph) && dict_wf(graph) && ids_wf(graph)
+//@   loop 0 invariant forall k int :: has(graph.dict, k) ==> (0 < k && k < nextNodeID)
+//@   loop 0 invariant forall k int :: has(graph.dict, k) ==> (exists i int :: 0 <= i && i <= idx && graph.nodes[i] == graph.dict[k])
+//@   loop 0 invariant forall k int :: !has(graph.to, k) && !has(graph.from, k)
+//@   loop 0 invariant forall i int :: 0 <= i && i <= idx ==>
+//@        (graph.nodes[i].data.Step.Name == old(steps[i].Name) && graph.nodes[i].data.Step.Depends == old(steps[i].Depends) &&
+//@         graph.nodes[i].data.State.Status == NodeStatusNone && has(graph.dict, graph.nodes[i].id) && graph.dict[graph.nodes[i].id] == graph.nodes[i])
+
+// hasCycle, memory safety and frame (unbounded): no nil-map write, no index out of range on the work list, and
+// nothing that existed before the call is written — in particular not the adjacency lists it walks.
+//@ fn (*ExecutionGraph).hasCycle(g) (r) variant safety
+//@   props C14 C01
+//@   safety
+//@   requires nodes_wf(g)
+//@   modifies heap(alloc)
+
+//@ fn New(cfg) (sc)
+//@   props C03 C15
+//@   modifies heap(alloc)
+//@   ensures sc != nil && !wasAllocated(sc)
+//@   ensures [C03 dry_flag_copied] sc.dry == cfg.Dry
+//@   ensures [C15 limit_copied] sc.maxActiveRuns == cfg.MaxActiveRuns
+//@   ensures sc.timeout == cfg.Timeout && sc.canceled == 0 && sc.lastError == nil
+//@   ensures sc.onExit == cfg.OnExit && sc.onSuccess == cfg.OnSuccess && sc.onFailure == cfg.OnFailure && sc.onCancel == cfg.OnCancel
+
+//@ fn (*Node).cancel(n)
+//@   props C04 C05
+//@   modifies n.data.State.Status
+//@   ensures [C05 cancel_marks_running_as_canceled] n.data.State.Status == ite(old(n.data.State.Status) == NodeStatusRunning, NodeStatusCancel, old(n.data.State.Status))
+
+//@ fn (*Scheduler).Cancel(sc, g)
+//@   props C04 C05
+//@   requires nodes_wf(g)
+//@   modifies sc.canceled, heap(Node.data.State.Status)
+//@   ensures [C04 cancel_sets_flag] sc.canceled == 1
+//@   ensures [C05 cancel_marks_only_running_nodes] forall i int :: 0 <= i && i < len(g.nodes) ==>
+//@        g.nodes[i].data.State.Status == ite(old(g.nodes[i].data.State.Status) == NodeStatusRunning, NodeStatusCancel, old(g.nodes[i].data.State.Status))
+//@   loop 0 invariant sc.canceled == 1
+//@   loop 0 invariant forall i int :: 0 <= i && i < len(g.nodes) ==>
+//@        (g.nodes[i].data.State.Status == old(g.nodes[i].data.State.Status) ||
+//@         (old(g.nodes[i].data.State.Status) == NodeStatusRunning && g.nodes[i].data.State.Status == NodeStatusCancel))
+//@   loop 0 invariant forall i int :: 0 <= i && i <= idx ==> g.nodes[i].data.State.Status != NodeStatusRunning
+
+//@ fn (Status).String(s) (r)
+//@   props C08
+//@   trusted
+//@   pure
+//@ fn (NodeStatus).String(s) (r)
+//@   props C08
+//@   trusted
+//@   pure
+
+//@ ghost obs.nodedata_len int
+//@ fn (*ExecutionGraph).NodeData(g) (ret)
+//@   props C08
+//@   requires nodes_wf(g)
+//@   modifies heap(alloc), ghost obs.nodedata_len
+//@   records obs.nodedata_len = len(ret)
+//@   ensures [C08 snapshot_of_every_node] len(ret) == len(g.nodes)
+//@   ensures [C08 snapshot_is_the_node_state] forall i int :: 0 <= i && i < len(g.nodes) ==> ret[i] == g.nodes[i].data
+//@   loop 0 invariant len(ret) == idx + 1
+//@   loop 0 invariant forall i int :: 0 <= i && i <= idx ==> ret[i] == g.nodes[i].data
+//@ fn (*ExecutionGraph).StartAt(g) (r)
+//@   props C08
+//@   ensures r == g.startedAt
+//@ fn (*ExecutionGraph).FinishAt(g) (r)
+//@   props C08
+//@   ensures r == g.finishedAt
+//@ fn (*Scheduler).HandlerNode(sc, name) (n)
+//@   props C08
+//@   trusted
+//@   noeffect
+//@ fn (*Node).Data(n) (d)
+//@   props C08
+//@   ensures d == n.data
